@@ -78,13 +78,13 @@ def start_jobs(tier, side, F=None, types=(1, 2, 3, 5, 6, 7)):
     for it in types:
         jobs.append(Job("h_start", variant="side%d-in%d-F%d%s" % (side, it, F, "-deep" if deep else ""),
                         defines={"VP_SIDE": side, "VP_IN_TYPE": it, "VP_F": F, "VP_EINTR": 1,
-                                 "VP_MAXEV": 1, "VP_EXTRA": 2 if deep else 1, "VP_USERFD_SYM": 1 if deep else 0,
-                                 "VP_NFD": 20 if deep else 18, "VP_NOFD": 24 if deep else 18},
-                        unwind=26 if deep else 20, params={"nfd": 20 if deep else 18, "retry": F + 2, "input_max": 3},
+                                 "VP_MAXEV": 1, "VP_EXTRA": 5 if deep else 1, "VP_USERFD_SYM": 1 if deep else 0,
+                                 "VP_NFD": 22 if deep else 18, "VP_NOFD": 28 if deep else 18},
+                        unwind=30 if deep else 20, params={"nfd": 22 if deep else 18, "retry": F + 2, "input_max": 3},
                         cbmc_flags=["--slice-formula"], timeout=1200 if not deep else 3600,
                         solvers=("minisat",) if not deep else ("minisat", "cadical"),
-                        bounds={"faults": F, "descriptor_table": 20 if deep else 18, "stdin_type": it,
-                                "unrelated_descriptors": 2 if deep else 1,
+                        bounds={"faults": F, "descriptor_table": 22 if deep else 18, "stdin_type": it,
+                                "unrelated_descriptors": 5 if deep else 1,
                                 "caller_descriptors": "any two positions 3..17" if deep else "two layouts (3,4 / 15,16)"}))
     return jobs
 
@@ -482,8 +482,10 @@ def frame_job(foot):
                solvers=("cadical", "kissat"), bounds={"handles": 2, "calls": 1})
 
 
-def static_job():
-    j = Job("symtab", variant="static-storage", bounds={"scope": "all static-storage objects defined in reproc/src POSIX units"})
+def static_job(windows=False):
+    j = Job("symtab", variant="windows-static-storage" if windows else "static-storage",
+            bounds={"scope": "all static-storage objects defined in " +
+                    ("reproc/src/process.windows.c" if windows else "the reproc/src POSIX units")})
     j.structural = True
     return j
 
@@ -532,3 +534,7 @@ add("C08", lambda tier: [stop_job(2, tier, F=1)])
 add("C05", lambda tier: [unit_job(6, "sink_string")])
 add("C02", lambda tier: start_jobs(tier, 1, F=0, types=(1,)))
 add("C14", lambda tier: start_jobs(tier, 0, types=(1,)))
+
+# ---- strengthening after the third mutation round
+add("C18", lambda tier: [static_job(windows=True)])
+add("C03", lambda tier: [cxx_job(2, "clone")])
